@@ -1,5 +1,6 @@
 import ZbossModel.CStruct
 import ZbossModel.OpsCodec
+import ZbossModel.Reasm
 /-! Line-protocol syntax for C-struct definitions / values and the layout operations. -/
 namespace Zboss.OpsCStruct
 open Zboss Wire CStruct
@@ -82,6 +83,20 @@ def handle : List String → Option String
     match decApsKeys rec d with
     | .ok (rs, rest) => pure ("ok " ++ OpsCodec.showVal (some (.rows rs)) ++ " rest=" ++ toHex rest)
     | .error e => pure ("err " ++ OpsCodec.showErr e)
+  | "rxcmd" :: chunks => do
+    let chunks ← chunks.mapM parseHex
+    let showD (d : Reasm.Delivery) : String := match d with
+      | .command i (.full a) => s!"C{i}=f=" ++ "/".intercalate (a.map OpsCodec.showVal)
+      | .command i (.partialCmd a) => s!"C{i}=p=" ++ "/".intercalate (a.map OpsCodec.showVal)
+      | .unknown => "U"
+      | .raised e => "E" ++ OpsCodec.showErr e
+    let step (acc : Rx.RxState × List Frame × List String) (c : Bytes) :=
+      let r := Rx.dataReceived (fun _ => false) acc.1 c
+      let frames := Rx.deliveredOf r.2
+      let q := Reasm.receiveAll acc.2.1 frames
+      (r.1, q.1, acc.2.2 ++ [if q.2.isEmpty then "." else "+".intercalate (q.2.map showD)])
+    let fin := chunks.foldl step ({}, [], [])
+    pure (" ".intercalate fin.2.2 ++ s!" | pending={fin.2.1.length}")
   | _ => none
 
 end Zboss.OpsCStruct
